@@ -340,7 +340,9 @@ func (ctx *SigningContext) getCanonicalQuery(u *url.URL) string {
 	for _, v := range ctx.Query {
 		sort.Strings(v)
 	}
-	return ctx.Query.Encode()
+	// Signature V4 encodes a space as %20, while Encode writes it as '+'
+	// (a literal '+' is written as %2B, so the replacement is exact).
+	return strings.ReplaceAll(ctx.Query.Encode(), "+", "%20")
 }
 
 // for each str in strs
